@@ -24,8 +24,13 @@ def run(ck):
                 r.violated in ("BlockLocal", "ParamLocal"))
   cases = ck.gen("Blocks_Gen", "Blocks_Gen")
   jobs = []
+  cases = sorted(cases, key=lambda c: (c["blocks"], c["scales"], c["companion"]))
+  kinds = ["none", "vector", "matrix", "huge"]
+  groups = sorted({(c["blocks"], c["scales"]) for c in cases})
   for i, c in enumerate(cases):
-    if quick and i % 2:          # quick: every other case (all layouts x scales still covered)
+    # quick: half of the cases - every (layout, scales) group keeps two companion kinds, alternating between
+    # {none, matrix} and {vector, huge} from group to group, so every kind meets every layout
+    if quick and (kinds.index(c["companion"]) + groups.index((c["blocks"], c["scales"]))) % 2:
       continue
     for opt in ("ds", "tf"):
       jobs.append({"opt": opt, "case": c, "seed": ck.seed * 1000 + i, "quick": quick, "eigh": bool((i // 2) % 2), "shard_leg": (i % 8 == 0),
